@@ -23,9 +23,12 @@ def plan(tier):
                 'non-zero padding, duplicated/reordered/deeply nested children, batch count mismatches, '
                 'unsupported versions) and raw random frames, each re-framed with a consistent outer length; '
                 'streams bad*-good fed to a real KmipSession under three recv chunkings; maximum response '
-                'sizes from 1 to beyond the response; a cell is (mutation class, decodable?, outcome)',
+                'sizes from 1 to beyond the response; plus coverage-guided frames (libFuzzer through atheris over the '
+                'instrumented kmip package, seeded with valid requests of every operation and version), each followed '
+                'by a valid probe, under the same oracles; a cell is (mutation class, decodable?, outcome)',
         'min_monitor': {'frames_sent': 3000, 'undecodable_frames_checked': 1000, 'probes_after_garbage': 150,
-                        'chunkings_compared': 150, 'maxsize_checked': 100},
+                        'chunkings_compared': 150, 'maxsize_checked': 100,
+                        'fuzz_frames_undecodable': 1000},
         'assumptions': ['a framed request is the unit delimited by the outer TTLV header, as the session frames it',
                         'undecodable = RequestMessage.read raises under the session\'s default version (1.2)',
                         'a frame whose header announces more bytes than the stream holds ends the connection '
@@ -35,7 +38,8 @@ def plan(tier):
 
 def cases(tier, seed):
     n = 48 if tier == 'quick' else 640
-    return [{'stream': i} for i in range(n)]
+    nf = 4 if tier == 'quick' else 32
+    return [{'fuzz': i} for i in range(nf)] + [{'stream': i} for i in range(n)]
 
 
 def reframe(body):
@@ -241,7 +245,34 @@ def run_stream(engine, frames, cert, rng, mode):
     return conn.sent, escaped
 
 
+def run_fuzz(ctx, case):
+    """Coverage-guided frames (kv/fuzz_c12.py, libFuzzer through atheris) under the same oracles."""
+    from kv import fuzzrun
+    runs, seconds = (2500, 40) if ctx.tier == 'quick' else (10 ** 7, 150)
+    res, why = fuzzrun.run('kv.fuzz_c12', runs, seconds, ctx.seed * 1000 + case['fuzz'])
+    if res is None:
+        ctx.unsure(why)
+        return
+    for h in res.get('harness_errors', [])[:3]:
+        ctx.unsure('harness error in the fuzz driver: %s' % h[-400:])
+    ctx.ev(res['inputs'])
+    ctx.count('fuzz_inputs_guided' if res.get('guided') else 'fuzz_inputs_unguided', res['inputs'])
+    ctx.count('fuzz_frames_undecodable', res['undecodable'])
+    ctx.count('fuzz_frames_decodable', res['decodable'])
+    ctx.count('fuzz_probes_after_garbage', res['probe_checked'])
+    ctx.count('frames_sent', 2 * res['inputs'])
+    ctx.count('undecodable_frames_checked', res['undecodable'])
+    for cell in res['cells']:
+        ctx.cell('fuzz', cell)
+    for s_ in res.get('samples', [])[:2]:
+        ctx.sample(dict(s_, source='fuzz'))
+    for v in res['violations']:
+        ctx.violation(v['key'], v['what'] + ' [coverage-guided frame]', v.get('detail'))
+
+
 def run_case(ctx, case):
+    if 'fuzz' in case:
+        return run_fuzz(ctx, case)
     rng = ctx.rng()
     clock = rig.install_clock(rig.VClock(step=0))
     cert = rig.make_cert(('alice',), 'client')
